@@ -233,6 +233,50 @@ class ObjectModel(ClosureModel):
     T = TEMPLATES
 
 
+# ---- a class has a field `count`, the enclosing scope a variable `count`: a bare `count` in a member is the outer variable (a field is reached
+# through `self`), each object keeps its own field.  member form -> (member source lines, call expression, python model (outer, field) -> (printed, outer'))
+FIELDNAME_MEMBERS = {
+    "method-reads": (["fn m(self) -> int {", "\treturn count", "}"], "m()", lambda o, f: (o, o)),
+    "method-reads-both": (["fn m(self) -> int {", "\treturn count * 10 + self.count", "}"], "m()", lambda o, f: (o * 10 + f, o)),
+    "method-modifies": (["fn m(self) -> int {", "\tmodify count = count + 1", "\treturn self.count", "}"], "m()", lambda o, f: (f, o + 1)),
+    "method-local-of-that-name": (["fn m(self) -> int {", "\tcount = 7", "\treturn count + self.count", "}"], "m()", lambda o, f: (7 + f, o)),
+    "method-parameter-of-that-name": (["fn m(self, count: int) -> int {", "\treturn count + self.count", "}"], "m(5)", lambda o, f: (5 + f, o)),
+    "closure-in-method-reads": (["fn m(self) -> int {", "\th = fn() -> int {", "\t\treturn count", "\t}", "\treturn h() + self.count", "}"], "m()", lambda o, f: (o + f, o)),
+    "method-calls-sibling-that-reads": (["fn m(self) -> int {", "\treturn self.r() + 1", "}", "fn r(self) -> int {", "\treturn count", "}"], "m()", lambda o, f: (o + 1, o)),
+    "constructor-reads": (["fn m(self) -> int {", "\treturn self.seen", "}"], "m()", lambda o, f: (100, o)),
+}
+FIELDNAME_OWNERS = ("module", "function", "escaped")
+
+
+def fieldname_program(member, owner):
+    names = list(FIELDNAME_MEMBERS) if member == "all" else [member]
+    ind = lambda ls, n: ["\t" * n + l for l in ls]
+    cls = ["class Counter {", "\tcount: int", "\tseen: int", "\tconstructor(self, start: int) {", "\t\tself.count = start", "\t\tself.seen = count", "\t}"]
+    calls = []
+    for i, nm in enumerate(names):
+        lines, call, _ = FIELDNAME_MEMBERS[nm]
+        lines = [l.replace("fn m(", f"fn m{i}(").replace("fn r(", f"fn r{i}(").replace("self.r()", f"self.r{i}()") for l in lines]
+        cls += ind(lines, 1)
+        calls.append((nm, call.replace("m(", f"m{i}(")))
+    cls += ["\tfn own(self) -> int {", "\t\treturn self.count", "\t}", "}"]
+    use = ["a = Counter(1)", "b = Counter(2)"]
+    outer, exp = 100, []
+    for obj, fld in (("a", 1), ("b", 2), ("a", 1)):
+        for nm, call in calls:
+            pr, outer = FIELDNAME_MEMBERS[nm][2](outer, fld)
+            use += [f"print {obj}.{call}", f"print {obj}.own()"]
+            exp += [str(pr), str(fld)]
+    if owner == "module":
+        src = ["count = 100"] + cls + use + ["print count"]
+    elif owner == "function":
+        src = ["host = fn() {"] + ind(["count = 100"] + cls + use + ["print count"], 1) + ["}", "host()"]
+    else:
+        # the objects are handed out; the function that owns `count` has returned when the members run
+        src = ["count = 100"] + cls + ["mk = fn(s: int) -> Counter {", "\treturn Counter(s)", "}"] + [u.replace("Counter(", "mk(") for u in use] + ["print count"]
+    exp.append(str(outer))
+    return "\n".join(src) + "\n", exp
+
+
 class C08(EHistCheck):
     id = "C08"
     model = ObjectModel()
@@ -252,14 +296,33 @@ class C08(EHistCheck):
     assumptions = ["objects are never printed (addresses); `==` on objects is rejected by the compiler and is not in the alphabet"]
 
     def layers(self, tier):
-        return [("same-named-classes-in-different-scopes-of-one-file", _same_cases())] + self.bfs(tier)
+        fld = [("fieldname", m, o) for m in FIELDNAME_MEMBERS for o in FIELDNAME_OWNERS] + [("fieldname", "all", o) for o in FIELDNAME_OWNERS]
+        return [("same-named-classes-in-different-scopes-of-one-file", _same_cases()),
+                ("a-bare-name-in-a-member-that-is-also-the-name-of-a-field-(fields-are-reached-through-self)", fld)] + self.bfs(tier)
 
     def describe(self, case):
+        if case[0] == "fieldname":
+            return {"member using the bare name": case[1], "owner of the outer variable": case[2]}
         if case[0] == "same":
             return {"class K declared in": [case[1], case[2]], "shape": case[3], "scopes exercised": list(SAME_ORDERS[case[4]])}
         return EHistCheck.describe(self, case)
 
+    def run_fieldname(self, case):
+        from ..core import driver
+        src, exp = fieldname_program(case[1], case[2])
+        res = driver.run_ms(src)
+        if driver.compile_rejected(res):
+            return {"outcome": "fieldname-rejected", "nontrivial": False, "tags": ["fieldname-rejected"], "show": res.out[-300:]}
+        viol = []
+        if res.exit != 0 or res.lines() != exp:
+            viol.append({"sig": {"kind": "field-name-vs-outer-variable", "member": case[1], "owner": case[2]},
+                         "what": f"class with a field `count` and an outer variable `count` (owner {case[2]}), member form {case[1]}: expected {exp}, got exit {res.exit} and {res.lines()} {res.err[-200:]}",
+                         "detail": {"files": {"x.ms": src}, "res": res.brief(), "expected_lines": exp}})
+        return {"outcome": "fieldname-ok" + ("-DIFF" if viol else ""), "viol": viol, "nontrivial": True, "tags": ["fieldname"]}
+
     def run_case(self, case):
+        if case[0] == "fieldname":
+            return self.run_fieldname(case)
         if case[0] != "same":
             return EHistCheck.run_case(self, case)
         from ..core import driver
